@@ -4,6 +4,8 @@
     bookkeeping.  [gd_pre]: unfrozen parameters are well formed and their gradient has their length (what C03
     guarantees).  [gd_post] spells out: frozen parameters untouched; unfrozen ones re-bound to a fresh tracked node of
     the same dimensions with values x - lr*g of THEIR OWN gradient, no gradient; old nodes only lose their gradient.
+    "Frozen" is decided as corgi decides it, while walking the list ([frozen_flags]): no gradient, or the node's gradient
+    was already taken by an earlier handle of the same node (tied weights).
     No ring assumption: the step is the literal [fsub x (fmul lr g)].
 
     Statements only: every theorem below is closed by [exact <lemma>]; the lemmas are proved in
@@ -59,12 +61,55 @@ Theorem C13_model_update :
               Some {| l_conv := l_conv l; l_act := l_act l; l_w := w; l_b := b |}).
 Proof. exact @model_update_spec. Qed.
 
+(** lists holding several handles of one node (tied weights): no distinctness hypothesis; the first handle of a node is stepped with the node's own gradient, later handles are returned untouched, every listed node ends without a gradient - aliasing never shifts the flat buffers *)
+Theorem C13_tied_parameters :
+  forall (F : Type) (O : ScalarOps F) (s : state) (lr : F) (params : list handle),
+         gd_pre s params ->
+         exists (s' : state) (out : list handle),
+           gd_update O s lr params = Some (s', out) /\
+           gd_post O s lr params s' out /\ gd_post_alias s params s' out.
+Proof. exact @gd_update_alias_spec. Qed.
+
+(** a parameter is stepped exactly when it holds a gradient and no earlier handle of the list names the same node (corgi decides this while walking the list, taking each gradient as it goes) *)
+Theorem C13_frozen_rule :
+  forall (F : Type) (s : state) (ps : list handle) (taken : list nat) (i : nat) (h : handle),
+         nth_error ps i = Some h ->
+         nth_error (frozen_flags s taken ps) i = Some false <->
+         (exists g : arr F, grad_of s h = Some g) /\
+         ~ In (e_node h) taken /\ ~ In (e_node h) (map e_node (firstn i ps)).
+Proof. exact @frozen_flags_false_iff. Qed.
+
+(** for distinct nodes the rule is simply: frozen iff no gradient *)
+Theorem C13_frozen_rule_distinct :
+  forall (F : Type) (s : @state F) (params : list entry),
+         @NoDup nat (@map entry nat e_node params) ->
+         @frozen_flags F s (@nil nat) params =
+         @map handle bool (fun h : handle => match @grad_of F s h with
+                                             | Some _ => false
+                                             | None => true
+                                             end) params.
+Proof. exact @frozen_flags_nodup. Qed.
+
+(** the stepped nodes are pairwise distinct, whatever the list *)
+Theorem C13_stepped_nodes_distinct :
+  forall (F : Type) (s : @state F) (params : list handle),
+         @NoDup nat (@map entry nat e_node (@unfrozen F s params)).
+Proof. exact @unfrozen_nodup. Qed.
+
 (** Why the length hypothesis matters (and hence C03): with a gradient one element too long the
     second parameter is stepped with the wrong gradient elements. *)
 Check OptimExamples.gd_update_refuted_without_lengths.
 Check OptimExamples.gd_update_example.
+(** tied weights [w; clone of w; b] over the integers, lr = 2: w stepped once, the clone untouched, b stepped with
+    its own gradient *)
+Check OptimExamples.gd_update_alias_example.
+Check OptimExamples.gd_update_alias_instance.
 
 Print Assumptions C13_update.
 Print Assumptions C13_closed_form.
 Print Assumptions C13_all_frozen.
 Print Assumptions C13_model_update.
+Print Assumptions C13_tied_parameters.
+Print Assumptions C13_frozen_rule.
+Print Assumptions C13_frozen_rule_distinct.
+Print Assumptions C13_stepped_nodes_distinct.
